@@ -14,6 +14,8 @@
 -/
 import Babylon.Wire.LemmasRoundtrip2
 import Babylon.Wire.LemmasTotal
+import Babylon.Wire.LemmasUnknown
+import Babylon.Wire.LemmasFixpoint2
 
 namespace Babylon.Properties.C11
 open Babylon.Wire Babylon.Gen.Wire
@@ -192,6 +194,65 @@ object's default is exactly what the round trip needs. -/
 theorem empty_encoding_reads_as_default (t : Ty) (v d : Val) (ht : wfTy t = true) (hc : canonTy t = true)
     (hv : hasTy t v = true) (hd : resettable t d = true) (h0 : size t v = 0) : norm t v = d :=
   norm_of_size_zero t ht hc v d hv hd h0
+
+/-! ## B. Fixpoint, unknown fields, absent fields, field order -/
+
+/-- **What a successful parse returns is a value** (any configuration of the model, any bytes, any state of the
+stream, any well-typed canonical object parsed into): integers in range, arrays of the declared length, sets / maps
+without duplicates.  `keysPtrFree`: set elements and map keys hold no smart pointers (C++ compares them by value). -/
+theorem decode_returns_value (cfg : Cfg) (t : Ty) (ht : wfTy t = true) (hc : canonTy t = true)
+    (hk : keysPtrFree t = true) (st : St) (d v : Val) (st' : St) (hd : hasTy t d = true) (hcd : canon t d = true)
+    (h : decode cfg t st d = .ok v st') : hasTy t v = true ∧ canon t v = true :=
+  decode_wf cfg t ht hc hk st d v st' hd hcd h
+
+/-- **Parse success ⇒ the result serializes and parses back to itself.**  Whatever bytes `bs`, presentation `p`
+and (well-typed canonical) object `d` a parse started from, if it reports success with `v` then serializing `v` and
+parsing the bytes into a fresh object — through any presentation `q` that shows them all — succeeds and yields
+`norm t v`: `v` itself, smart pointers to empty-encoding values read back as null.  (`size t v < 2^31`: the
+re-serialization must itself be presentable; it can be longer than `bs`, e.g. `ff 01` read as `int8_t` −1 is
+written back as 5 bytes.) -/
+theorem decode_fixpoint (dbg : Bool) (t : Ty) (p q : Pres) (bs : Bytes) (d v : Val) (st' : St)
+    (ht : wfTy t = true) (hc : canonTy t = true) (hk : keysPtrFree t = true) (hd : hasTy t d = true)
+    (hcd : canon t d = true) (h : parse (Cfg.repaired dbg) t p bs d = .ok v st') (hsz : size t v < 2 ^ 31)
+    (hq : q.shows (size t v)) :
+    parse (Cfg.repaired dbg) t q (encode t v) (dflt t) =
+      .ok (norm t v) ((St.init q (encode t v)).adv (size t v)) := by
+  obtain ⟨h1, h2⟩ := decode_wf (Cfg.repaired dbg) t ht hc hk (St.init p bs) d v st' hd hcd h
+  exact decode_encode dbg t v q ht hc h1 h2 hsz hq
+
+/-- **Unknown fields are skipped.**  While parsing an aggregate, a well-formed field whose number no member has —
+wire type varint, fixed64, fixed32 or length-delimited (`okPayload`) — is stepped over: the parse goes on exactly
+as if it had started behind it.  Holds at any point of any stream (`st`), for whatever follows (`rest`). -/
+theorem unknown_fields_skipped (dbg : Bool) (b : Bool) (fs : Fields) (hfs : wfFields fs = true) (num w : Nat)
+    (payload rest : Bytes) (d : Val) (hnum : num < 2 ^ 29) (hw : okPayload w payload) (hun : fs.hasNum num = false)
+    (hd : shapeOf fs d = true) (st : St) (hwf : st.WF)
+    (hwin : st.window = encVarint (num * 8 + w) ++ payload ++ rest) :
+    decode (Cfg.repaired dbg) (.agg b fs) st d =
+      decode (Cfg.repaired dbg) (.agg b fs) (st.adv (encVarint (num * 8 + w) ++ payload).length) d :=
+  agg_skips_unknown dbg b fs hfs num w payload rest d hnum hw hun hd st hwf hwin
+
+/-- **Absent fields keep their defaults** (1): an aggregate parsed from no readable bytes is left exactly as it
+was. -/
+theorem absent_keeps_default (cfg : Cfg) (b : Bool) (fs : Fields) (st : St) (d : Val) (h : st.avail = 0) :
+    decode cfg (.agg b fs) st d = .ok d st :=
+  agg_empty_input cfg b fs st d h
+
+/-- **Absent fields keep their defaults** (2) / building block of field-order independence: one iteration of the
+aggregate loop whose tag carries the number of the member at *any* position parses that member in place and leaves
+every other entry of the object — before (`rpre`) and after (`xs`) — as it was. -/
+theorem field_parse_touches_only_its_member (cfg : Cfg) (n : Nat) (t : Ty) (d0 : Val) (pre rest : Fields)
+    (tag : Nat) (st : St) (rpre x xs : Val) (hs : shapeOf pre rpre = true) (hn : pre.hasNum n = false) (r : Val)
+    (st' : St) (h : decodeField cfg (pre.app (.cons n t d0 rest)) n tag st (rpre.app (.cons x xs)) = .ok r st') :
+    ∃ x', r = rpre.app (.cons x' xs) ∧ fieldWith cfg t.wire tag (decode cfg t) st x = .ok x' st' :=
+  field_touches_only_its_member cfg n t d0 pre rest tag st rpre x xs hs hn r st' h
+
+/- `field_order_irrelevant` (full statement, not proved as a theorem):
+     for an aggregate with pairwise distinct field numbers and a value `v`, parsing the concatenation of the field
+     encodings of `v` in ANY order (each present field once) into a fresh object yields `norm t v`.
+   Proved: declaration order (`decode_encode`), and the order-independent single step
+   (`field_parse_touches_only_its_member`: the dispatch is by number, the member is updated in place, nothing else
+   moves); the induction over an arbitrary wire order is not mechanised.  The E-SEQ stream permutes the top-level
+   fields of real encodings (`reorder`, `dup-field` mutations) and compares model and code. -/
 
 /-! ### the hypotheses are satisfiable (and the theorems say something on a real struct) -/
 
